@@ -11,7 +11,7 @@ from sa.model import contains, enclosing, execute_impl_funcs
 from sa.variants import Variant, replace_once, sub_first, sub_once
 
 from .c07 import check_cache_invalidation
-from .common import call_names, eval_bool, template_methods
+from .common import call_names, eval_bool, template_methods, vars_from_call
 
 ID = "C16"
 EXPLANATION = (
@@ -147,9 +147,32 @@ def run(ctx) -> None:
             rep.add("C16.R2", f"{m.qname}:filter_outputs#{k}:{where}", ok, f"{m.module.rel}:{c.lineno}", "values are restricted to the caller's run-time selection" if ok else f"filter_outputs on the {where} does not receive the run-time 'select': a completed/failed/paused result would fall back to the graph default or to all outputs")
 
     # ---- R3 ---------------------------------------------------------------------
-    ca = db.func("runners._shared.helpers._collect_all_outputs")
-    cs = db.func("runners._shared.helpers._collect_selected_outputs")
     fo = db.func("runners._shared.helpers.filter_outputs")
+    # the collectors are found by role: what filter_outputs returns for "**" and for an explicit selection
+    focfg = ctx.cfg(fo)
+    evars = set(vars_from_call(db, fo, {"_resolve_select"})) or {"effective"}
+    star_atoms = {f"{v} == '**'" for v in evars}
+
+    def returned_callees(val):
+        live = reachable(focfg.entry, specialize(val, focfg))
+        out = []
+        for r in live:
+            if r.kind == "stmt" and isinstance(r.ast, ast.Return) and isinstance(r.ast.value, ast.Call):
+                for cal in db.resolve_call(r.ast.value, fo):
+                    if cal.func is not None:
+                        out.append((r, r.ast.value, cal.func))
+        return out
+
+    all_side = returned_callees({a: True for a in star_atoms})
+    sel_side = returned_callees({a: False for a in star_atoms})
+    if not all_side or not sel_side:
+        raise AnalysisError("filter_outputs: collectors not recognised")
+    ca = all_side[0][2]
+    cs = [f_ for _, _, f_ in sel_side if f_ is not ca][0] if [f_ for _, _, f_ in sel_side if f_ is not ca] else sel_side[0][2]
+    # every explicit selection is collected under the caller's on_missing policy
+    omp = [p_ for p_ in fo.param_names if "missing" in p_][0]
+    lacking = [c_ for _, c_, _ in sel_side if not any(isinstance(a, ast.Name) and a.id == omp for a in list(c_.args) + [k.value for k in c_.keywords])]
+    rep.add("C16.R5", f"{fo.qname}:explicit-selection-under-policy", not lacking, f"{fo.module.rel}:{lacking[0].lineno if lacking else fo.lineno}", "every explicit selection (string shorthand or collection) is collected under the caller's on_missing policy" if not lacking else f"'{src(lacking[0])[:70]}' serves an explicit selection without the on_missing policy: a selected but unproduced name is silently ignored even with on_missing='warn'/'error'")
     comps = [n for n in walk_local(ca.node) if isinstance(n, ast.DictComp)]
     ok = len(comps) == 1 and src(comps[0].generators[0].iter) == "graph.outputs" and any("is not sentinel" in src(i) for i in comps[0].generators[0].ifs) and any("in state.values" in src(i) for i in comps[0].generators[0].ifs)
     rep.add("C16.R3", f"{ca.qname}", ok, ca.loc(), "all-outputs collector iterates graph.outputs and drops the sentinel by identity" if ok else "the all-outputs collector no longer iterates graph.outputs only / no longer excludes the emit sentinel by identity")
@@ -159,7 +182,7 @@ def run(ctx) -> None:
     ok = len(loops) == 1 and bool(solve(["for _K in names: ...", "_R[_K] = state.values[_K]", "state.values[_K] is not sentinel", "return _R"], cs.node))
     rep.add("C16.R3", f"{cs.qname}", ok, cs.loc(), "selected collector iterates the requested names and drops the sentinel by identity" if ok else "the selected-outputs collector can return names outside the selection or a sentinel value")
     # sentinel passed is the module constant
-    sent_ok = all(any(isinstance(a, ast.Name) and a.id == "_EMIT_SENTINEL" for a in c.args) for c in db.calls_in(fo) if call_names(db, c, fo) & {"_collect_all_outputs", "_collect_selected_outputs"})
+    sent_ok = all(any(isinstance(a, ast.Name) and a.id == "_EMIT_SENTINEL" for a in c.args) for c in db.calls_in(fo) if call_names(db, c, fo) & {ca.name, cs.name})
     rep.add("C16.R3", f"{fo.qname}:sentinel", sent_ok, fo.loc(), "collectors receive the module's emit sentinel" if sent_ok else "collectors are not given the emit sentinel")
     rrs = db.func("runners._shared.validation.resolve_runtime_selected")
     ok = any(isinstance(n, ast.Assign) and isinstance(n.value, ast.ListComp) and "not in graph.outputs" in src(n.value) for n in walk_local(rrs.node)) and any(isinstance(n, ast.Raise) for n in walk_local(rrs.node))
